@@ -9,7 +9,7 @@ from glue.viewers.matplotlib.state import (MatplotlibDataViewerState,
                                            DeferredDrawSelectionCallbackProperty as DDSCProperty)
 from glue.core.state_objects import StateAttributeLimitsHelper
 from glue.utils import defer_draw, view_shape
-from echo import delay_callback
+from echo import delay_callback, ChoiceSeparator
 from glue.core.data_combo_helper import ManualDataComboHelper, ComponentIDComboHelper
 from glue.core.exceptions import IncompatibleDataException
 from glue.viewers.common.stretch_state_mixin import StretchStateMixin
@@ -568,7 +568,12 @@ class ImageLayerState(BaseImageLayerState, StretchStateMixin):
     def _update_attribute(self, *args):
         if self.layer is not None:
             self.attribute_att_helper.set_multiple_data([self.layer])
-            self.attribute = self.layer.main_components[0]
+            # We pick the first of the valid choices rather than the first
+            # main component, since categorical components can't be shown
+            choices = [choice for choice in self.attribute_att_helper.choices
+                       if not isinstance(choice, ChoiceSeparator)]
+            if len(choices) > 0:
+                self.attribute = choices[0]
 
     def _update_priority(self, name):
         if name == 'layer':
